@@ -133,3 +133,15 @@ claim("C05",
       "exclude translation, arity and order of the final projection for every program.",
       "translate_cid, the computation of the inferred name, HashMap / HashSet / NameGenerator are shims by contract; the iteration of retain() and "
       "the search of the Select in the CTE pipeline are dropped by the slices.")
+
+prop("C09", ["ident_quote", "ids_names"],
+     not_covered="content of the identifier regex and of the keyword tables; freshness of generated names against user names that are not registered yet; "
+                 "assign_names / RelVarNameAssigner loops")
+claim("C09",
+      "PARTIAL. Proved on the real code: translate_ident_part never changes the identifier text, emits it bare only if it is simple AND not a keyword "
+      "(case-insensitively, general + dialect list) AND the dialect quotes conditionally, otherwise with the dialect's quote character (IQ1-3); "
+      "is_keyword is exactly membership of the upper-cased text in the keyword sets (IK1, DK1); ids are handed out strictly increasing and above every "
+      "loaded id (IG1-3, SK1); names of one generator are pairwise distinct (NG1); at a pipeline split a re-declared column gets a name different from "
+      "every name given at that split and the name is recorded (AS1a-c). NOT proved: content of regex / keyword tables, capture of not-yet-registered "
+      "user names.",
+      "regex, HashSet, OnceLock tables, dyn DialectHandler, sqlparser Ident constructors, format! are shims by contract.")
